@@ -464,6 +464,11 @@ func (g *Gen) TransportFor(minCap int, bytes int64) Transport {
 	tr.Bias = []int{kernel.BiasUniform, kernel.BiasUniform, kernel.BiasCanonical, kernel.BiasStarve, kernel.BiasBursty, kernel.BiasReverse}[g.R.Intn(6)]
 	tr.StarveDir = g.R.Intn(2)
 	tr.Delays = g.R.Intn(4) == 0
+	if g.R.Intn(6) == 0 {
+		// boundary checksum seeds
+		v := []int32{0, 1, -1, 0x7fffffff, -0x80000000, 27}[g.R.Intn(6)]
+		tr.Seed = &v
+	}
 	// bound the number of scheduler steps: about 40k steps per session
 	const stepTarget = 40000
 	if bytes/stepTarget > 1 {
